@@ -450,7 +450,18 @@ func (x *Exec) assertT(c *Term, msg string) {
 	}
 	x.sol.SetTimeout(x.feasTimeout)
 	atomic.AddInt64(&R.AssertQueries, 1)
-	if res == "sat" {
+	if res == "sat" && (len(x.ffApps) > 0 || len(x.pfApps) > 0) {
+		if c.op == OConst {
+			x.sol.Push()
+		}
+		res = x.refineFloatText()
+		if res == "sat" {
+			viol = x.buildViolation(msg, "assert")
+		}
+		if c.op == OConst {
+			x.sol.Pop(1)
+		}
+	} else if res == "sat" {
 		viol = x.buildViolation(msg, "assert")
 	}
 	if c.op != OConst {
@@ -663,6 +674,8 @@ func (x *Exec) resetPath() {
 	x.hb = nil
 	x.syncs = nil
 	x.procs = 0
+	x.ffApps = x.ffApps[:0]
+	x.pfApps = x.pfApps[:0]
 	x.raceMsgs = nil
 	x.wtrack = nil
 	x.wtrackM = nil
